@@ -143,7 +143,7 @@ def np_array(obj, dtype=None, copy=True, order='K', subok=False, ndmin=0, **kw):
         obj = obj.view_plain()            # np.array / np.asarray of an np.matrix is a plain ndarray
     if isinstance(obj, SArr):
         r = obj.astype(dtype) if (dtype is not None and _np.dtype(dtype) != obj.ldtype) else \
-            (obj.copy() if copy or copy is None and False else obj)
+            (obj.copy(order=order) if copy or copy is None and False else obj)      # order='K' keeps a column-major layout
     elif isinstance(obj, _nd):
         r = SArr.from_typed(obj if dtype is None else obj.astype(dtype))
     elif isinstance(obj, SVal):
@@ -1108,7 +1108,14 @@ def np_isclose(a, b, rtol=1e-05, atol=1e-08, equal_nan=False):
     a, b = _unlazy(a), _unlazy(b)
     if _conc(a) and _conc(b):
         return _delegate('isclose', a, b, rtol=rtol, atol=atol, equal_nan=equal_nan)
-    return _np.less_equal(_np.absolute(_np.subtract(a, b)), _np.add(atol, _np.multiply(rtol, _np.absolute(b))))
+    # NumPy: finite pairs by the tolerance formula, anything involving an infinity by equality (NaN never close)
+    fin = _np.logical_and(_np.isfinite(a), _np.isfinite(b))
+    tol = _np.less_equal(_np.absolute(_np.subtract(a, b)), _np.add(atol, _np.multiply(rtol, _np.absolute(b))))
+    same = _np.equal(a, b)
+    r = _np.logical_or(_np.logical_and(fin, tol), _np.logical_and(_np.logical_not(fin), same))
+    if equal_nan:
+        r = _np.logical_or(r, _np.logical_and(_np.isnan(a), _np.isnan(b)))
+    return r
 
 
 def np_allclose(a, b, rtol=1e-05, atol=1e-08, equal_nan=False):
